@@ -102,7 +102,7 @@ fn drive_sessions(c: &Ctx) -> Vec<Sess> {
             let typed = (f.name.starts_with('t') && f.name[1..].chars().all(|c| c.is_ascii_digit()))
                 || (f.fmt == "parquet" && ["dict_brotli", "delta_lz4", "dict_lz4raw", "bss_plain"].contains(&f.name.as_str()));
             let primary = *api == files::apis(f.fmt)[0] || (f.fmt == "parquet" && *api == "metadata");
-            let budget = if c.thorough { 100 } else { 24 };
+            let budget = if c.thorough { 100 } else { 20 };
             let mut positions: Vec<usize> = vec![];
             if (n <= 300 && primary) || (c.thorough && !typed && primary) {
                 positions.extend(0..n);
@@ -126,7 +126,7 @@ fn drive_sessions(c: &Ctx) -> Vec<Sess> {
                 }
             }
             // (c) truncations: every length of short files (thorough: of the main files for the primary API), a sample otherwise
-            let cuts: Vec<usize> = if (n <= 300 && primary) || (c.thorough && !typed && primary) { (0..n).collect() } else { (0..(if c.thorough { 60 } else { 16 })).map(|_| rng.below(n)).collect() };
+            let cuts: Vec<usize> = if (n <= 300 && primary) || (c.thorough && !typed && primary) { (0..n).collect() } else { (0..(if c.thorough { 60 } else { 12 })).map(|_| rng.below(n)).collect() };
             for p in cuts {
                 push(Plan { src: "trunc", op: "trunc", sel: "abs", pos: p, ..Default::default() });
             }
